@@ -90,6 +90,21 @@ def c07 (op : String) (j : Json) : Option (R Json) :=
       let f ← fldOfJson (← fld j "field")
       let n ← ints j "n"
       pure (resJ fldToJson (resample f n))
+  | "result_kind" => some do
+      let fam ← match ← strOfJson (← fld j "fam") with
+        | "sel" => pure OpFam.sel
+        | "getitem" => pure OpFam.getitem
+        | "pad" => pure OpFam.pad
+        | "resample" => pure OpFam.resample
+        | s => throw s!"unknown family {s}"
+      let k ← match ← strOfJson (← fld j "kind") with
+        | "b" => pure DKind.bool
+        | "i" => pure DKind.int
+        | "f" => pure DKind.float
+        | "c" => pure DKind.complex
+        | s => throw s!"unknown kind {s}"
+      pure (Json.mkObj [("ok", .str (match resultKind fam k with
+        | .bool => "b" | .int => "i" | .float => "f" | .complex => "c"))])
   | _ => none
 
 end DFV.Drv
